@@ -179,6 +179,20 @@ struct Cond      // condition of a ConditionalRemover: scripted, evaluated with 
 	bool operator() (ArgT p) const { return onCondition(id, p); }
 	bool operator() (const Key &, ArgT p) const { return onCondition(id, p); }
 };
+// a condition that can be called with the trigger's arguments AND without any: the arguments win; the argument-less form is recorded as "kw",
+// for which no specification has a step.   A condition that can only be called without arguments ("kn").
+static bool onConditionNoArg(int id, const char * rec);
+struct CondBoth
+{
+	int id;
+	bool operator() (ArgT p) const { return onCondition(id, p); }
+	bool operator() (const Key &, ArgT p) const { return onCondition(id, p); }
+	bool operator() () const { return onConditionNoArg(id, "kw"); }
+};
+struct CondNoArg { int id; bool operator() () const { return onConditionNoArg(id, "kn"); } };
+// which of the three a ConditionalRemover listener gets is decided by its number (modulo 3: 1 both forms, 2 without arguments only, 0 arguments only)
+#define REG_COND(id, CALLEXPR) ((id) % 3 == 0 ? [&]() -> Handle { Cond C{id}; return CALLEXPR; }() : (id) % 3 == 1 ? [&]() -> Handle { CondBoth C{id}; return CALLEXPR; }() \
+	: [&]() -> Handle { CondNoArg C{id}; return CALLEXPR; }())
 // what an argumentAdapter-wrapped listener takes instead of the prototype's argument type
 struct PayloadView { int uid, v; PayloadView(const Payload & p) : uid(p.uid), v(p.v) { regUse(&p); } };
 struct AdaptedCb
@@ -374,6 +388,14 @@ static bool onCondition(int id, const Payload & p)
 	evx("ke", 0, id, 0, verdict ? 1 : 0, 0);
 	return verdict;
 }
+static bool onConditionNoArg(int id, const char * rec)
+{
+	evx(rec, 0, id, 0, 0, 0);
+	Op r = runUser(id);
+	bool verdict = (r.k == "ct") ? r.a != 0 : false;
+	evx("ke", 0, id, 0, verdict ? 1 : 0, 0);
+	return verdict;
+}
 static void onListener(int id, int keySeen, const Payload & p)
 {
 	regUse(&p);
@@ -535,18 +557,18 @@ static bool step()
 	// CounterRemover / ConditionalRemover: the helper object is a temporary, gone right after the registration
 #if W_OBJ == 2
 	else if(k == "ac") { int id = (int)H.size() + 1; H.push_back(eventpp::counterRemover(q->list).append(Cb(id), o.b)); HE.push_back(o.a); evx("ac", o.a, o.b, 0, id, 0); }
-	else if(k == "ak") { int id = (int)H.size() + 1; H.push_back(eventpp::conditionalRemover(q->list).append(Cb(id), Cond{id})); HE.push_back(o.a); evx("ak", o.a, 0, 0, id, 0); }
+	else if(k == "ak") { int id = (int)H.size() + 1; H.push_back(REG_COND(id, eventpp::conditionalRemover(q->list).append(Cb(id), C))); HE.push_back(o.a); evx("ak", o.a, 0, 0, id, 0); }
 	else if(k == "pc") { int id = (int)H.size() + 1; H.push_back(eventpp::counterRemover(q->list).prepend(Cb(id), o.b)); HE.push_back(o.a); evx("pc", o.a, o.b, 0, id, 0); }
 	else if(k == "ic") { int id = (int)H.size() + 1; Handle b = handleOf(o.a / 10); H.push_back(eventpp::counterRemover(q->list).insert(Cb(id), b, o.b)); HE.push_back(o.a % 10); evx("ic", o.a % 10, o.b, o.a / 10, id, 0); }
-	else if(k == "qk") { int id = (int)H.size() + 1; H.push_back(eventpp::conditionalRemover(q->list).prepend(Cb(id), Cond{id})); HE.push_back(o.a); evx("qk", o.a, 0, 0, id, 0); }
-	else if(k == "ik") { int id = (int)H.size() + 1; Handle b = handleOf(o.b); H.push_back(eventpp::conditionalRemover(q->list).insert(Cb(id), b, Cond{id})); HE.push_back(o.a); evx("ik", o.a, 0, o.b, id, 0); }
+	else if(k == "qk") { int id = (int)H.size() + 1; H.push_back(REG_COND(id, eventpp::conditionalRemover(q->list).prepend(Cb(id), C))); HE.push_back(o.a); evx("qk", o.a, 0, 0, id, 0); }
+	else if(k == "ik") { int id = (int)H.size() + 1; Handle b = handleOf(o.b); H.push_back(REG_COND(id, eventpp::conditionalRemover(q->list).insert(Cb(id), b, C))); HE.push_back(o.a); evx("ik", o.a, 0, o.b, id, 0); }
 #else
 	else if(k == "ac") { int id = (int)H.size() + 1; H.push_back(eventpp::counterRemover(*q).appendListener(makeKey(o.a), Cb(id), o.b)); HE.push_back(o.a); evx("ac", o.a, o.b, 0, id, 0); }
-	else if(k == "ak") { int id = (int)H.size() + 1; H.push_back(eventpp::conditionalRemover(*q).appendListener(makeKey(o.a), Cb(id), Cond{id})); HE.push_back(o.a); evx("ak", o.a, 0, 0, id, 0); }
+	else if(k == "ak") { int id = (int)H.size() + 1; H.push_back(REG_COND(id, eventpp::conditionalRemover(*q).appendListener(makeKey(o.a), Cb(id), C))); HE.push_back(o.a); evx("ak", o.a, 0, 0, id, 0); }
 	else if(k == "pc") { int id = (int)H.size() + 1; H.push_back(eventpp::counterRemover(*q).prependListener(makeKey(o.a), Cb(id), o.b)); HE.push_back(o.a); evx("pc", o.a, o.b, 0, id, 0); }
 	else if(k == "ic") { int id = (int)H.size() + 1; Handle b = handleOf(o.a / 10); H.push_back(eventpp::counterRemover(*q).insertListener(makeKey(o.a % 10), Cb(id), b, o.b)); HE.push_back(o.a % 10); evx("ic", o.a % 10, o.b, o.a / 10, id, 0); }
-	else if(k == "qk") { int id = (int)H.size() + 1; H.push_back(eventpp::conditionalRemover(*q).prependListener(makeKey(o.a), Cb(id), Cond{id})); HE.push_back(o.a); evx("qk", o.a, 0, 0, id, 0); }
-	else if(k == "ik") { int id = (int)H.size() + 1; Handle b = handleOf(o.b); H.push_back(eventpp::conditionalRemover(*q).insertListener(makeKey(o.a), Cb(id), b, Cond{id})); HE.push_back(o.a); evx("ik", o.a, 0, o.b, id, 0); }
+	else if(k == "qk") { int id = (int)H.size() + 1; H.push_back(REG_COND(id, eventpp::conditionalRemover(*q).prependListener(makeKey(o.a), Cb(id), C))); HE.push_back(o.a); evx("qk", o.a, 0, 0, id, 0); }
+	else if(k == "ik") { int id = (int)H.size() + 1; Handle b = handleOf(o.b); H.push_back(REG_COND(id, eventpp::conditionalRemover(*q).insertListener(makeKey(o.a), Cb(id), b, C))); HE.push_back(o.a); evx("ik", o.a, 0, o.b, id, 0); }
 #endif
 #endif
 #if W_CALLBACK == 0
